@@ -57,6 +57,14 @@ def cases(rng, quick):
         nreg = rng.randint(1, 4)
         regs = ["q%d" % r for r in rng.sample([0, 1, 2, 3, 5, 7, 12, 100, 255], nreg)]
         lines = [HDR + "float x = 0.75\nint n = 3"]
+        ctx = rng.random()
+        if ctx < 0.25:
+            # a template: other statements (before or after) use free parameters
+            lines.append("Dgate({%s}%s) | 0" % (rng.choice(["alpha", "a", "q", "x1"]), rng.choice(["", ", 2 * {b}", ", phi={b} + 1"])))
+        elif ctx < 0.4:
+            # a tdm program with p-arrays (their names live in the same table as the parameters)
+            lines = ["name r\nversion 1.0\ntype tdm (temporal_modes=2)\nfloat x = 0.75\nint n = 3\nfloat array p0 =\n    0.1, 0.2\nfloat array p1 =\n    0.3, 0.4",
+                     "Sgate(p0, 0.0) | 1"]
         k = rng.randint(1, 3)
         for _ in range(k):
             e = None
@@ -75,6 +83,10 @@ def cases(rng, quick):
                 lines.append("Zgate(%s) | 0" % (fam[1] % q))
                 lines.append("Zgate(a=%s, b=%s) | 1" % (fam[1] % q, fam[0] % q))
         lines.append("Xgate(0.5, x, n * 2, s=\"a\") | 0")       # arguments without registers stay plain
+        if 0.25 <= ctx < 0.4:
+            lines.append("Rgate(p1) | 0")
+        elif ctx < 0.1:
+            lines.append("Kgate({kappa}) | 1")
         yield "\n".join(lines) + "\n"
 
 
@@ -136,7 +148,8 @@ def run(tier, seed):
     res.extra["comparison_stats"] = stats
     return finish(res, level="proof", trusted=fw.TRUSTED_COMMON + ["sympy.lambdify; the order in which a transform lists its registers is the implementation's freedom and is read from the object"],
                   rule="scripts whose arguments are polynomial/rational expressions over 1-4 distinct registers qN (N up to 3 digits) with int/float "
-                       "coefficients and declared variables, in positional and keyword position; compared with the model (register set, function "
+                       "coefficients and declared variables, in positional and keyword position, in plain programs, in templates (free parameters in other "
+                       "statements) and in tdm programs with p-arrays; compared with the model (register set, function "
                        "values at 3 points passed in the listed order) and re-run under 4 (thorough: 8) PYTHONHASHSEED values")
 
 
